@@ -173,7 +173,7 @@ def small_rate_matrix(rng, n):
 
 def aux_cases(rng, tier):
     out = []
-    npade = 6 if tier == "quick" else 30
+    npade = 6 if tier == "quick" else 60
     for _ in range(npade):
         n = rng.choice([2, 3, 4])
         A = small_rate_matrix(rng, n)
@@ -181,7 +181,7 @@ def aux_cases(rng, tier):
             A = [[x / 8 for x in row] for row in A]
         out.append(dict(kind="pade", A=A))
     out.append(dict(kind="pade", A=[[0.0] * 3 for _ in range(3)]))
-    ntay = 3 if tier == "quick" else 12
+    ntay = 3 if tier == "quick" else 20
     for _ in range(ntay):
         # norm < 1: the plain series is evaluated as is (also by a scaling-and-squaring variant, whose j is then 0)
         n = rng.choice([2, 3, 4])
@@ -193,7 +193,7 @@ def aux_cases(rng, tier):
             A[i][i] = -sum(A[i])
         out.append(dict(kind="taylor", A=A))
     out.append(dict(kind="taylor", A=[[0.0] * 2 for _ in range(2)]))
-    nr = 12 if tier == "quick" else 60
+    nr = 12 if tier == "quick" else 150
     for _ in range(nr):
         k = rng.randint(2, 5)
         w = rand_probs(rng, k, "plain") if rng.random() < 0.7 else [rng.randint(1, 16) / 16 for _ in range(k)]
@@ -222,7 +222,7 @@ CORPUS = [
 
 def build_cases(rng, tier):
     cases = [dict(c) for c in CORPUS]
-    reps = 4 if tier == "quick" else 14
+    reps = 4 if tier == "quick" else 28
     for name in REVERSIBLE_NUC + GENERAL_NUC:
         for r in range(reps):
             if tier == "quick":
@@ -243,19 +243,19 @@ def build_cases(rng, tier):
     # quick: one codon model per motif-probability model (monomer, conditional, tuple) + one other
     codon = CODON if tier != "quick" else ["MG94HKY", "CNFGTR", "Y98", rng.choice(["MG94GTR", "CNFHKY", "GY94", "H04G", "H04GK", "H04GGK", "GNC"])]
     for name in codon:
-        for r in range(1 if tier == "quick" else 3):
+        for r in range(1 if tier == "quick" else 5):
             cases.append(named_case(rng, name, "plain" if r == 0 else rng.choice(["near_equal", "extreme"])))
     for name in (PROTEIN[:1] if tier == "quick" else PROTEIN):
         cases.append(named_case(rng, name, "plain"))
     for name in GENERAL_NUC:
-        for _ in range(2 if tier == "quick" else 15):
+        for _ in range(2 if tier == "quick" else 40):
             cases.append(named_case(rng, name, "near_degenerate"))
     for mpm in ("tuple", "monomer", "conditional"):
         cases.append(built_case(rng, "plain", which="rev_dinuc", mpm=mpm))
     cases.append(built_case(rng, "plain", which="nonrev_dinuc"))
     cases.append(built_case(rng, "plain", which="rev_nuc"))
     cases.append(built_case(rng, "plain", which="nonrev_nuc"))
-    nb = 6 if tier == "quick" else 80
+    nb = 6 if tier == "quick" else 200
     for _ in range(nb):
         cases.append(built_case(rng, rng.choice(["plain", "plain", "near_equal", "extreme", "near_degenerate"])))
     head, rest = cases[:len(CORPUS)], cases[len(CORPUS):] + aux_cases(rng, tier)
@@ -594,6 +594,11 @@ def spec_checks(ck: Checker, c, r):
     ill = not condV < 1e5
     # transition matrices
     L = r["lengths"]
+
+    def pkey(base):
+        # with an ill-conditioned eigenbasis every defect of the eigen-computed P is the same finding
+        return "P:eigen-checked:ill-conditioned" if ill else base
+
     p_reliable = True
     for bname, rate in zip(sorted(r["P"]), rates):
         Ps = {e: numpy.array(M) for e, M in r["P"][bname].items()}
@@ -605,17 +610,17 @@ def spec_checks(ck: Checker, c, r):
             if not ok:
                 p_reliable = False
                 continue
-            ck.near(P.sum(axis=1), numpy.ones(n), TOL, f"P:rows:{fam}", c, "rows of P do not sum to one", dict(edge=e))
-            ck.check(bool((P >= -1e-12).all()), f"P:nonneg:{fam}", c, "negative transition probability",
+            ck.near(P.sum(axis=1), numpy.ones(n), TOL, pkey(f"P:rows:{fam}"), c, "rows of P do not sum to one", dict(edge=e))
+            ck.check(bool((P >= -1e-12).all()), pkey(f"P:nonneg:{fam}"), c, "negative transition probability",
                      dict(edge=e, observed_impl=float(P.min())))
             if stationary:
-                ck.near(pi @ P, pi, TOL, f"P:stationarity:{fam}", c, "pi P != pi for a stationary model", dict(edge=e))
+                ck.near(pi @ P, pi, TOL, pkey(f"P:stationarity:{fam}"), c, "pi P != pi for a stationary model", dict(edge=e))
             if reversible:
                 B = pi[:, None] * P
-                ck.near(B, B.T, TOL, f"P:detailed-balance:{fam}", c, "pi_i P_ij != pi_j P_ji", dict(edge=e))
+                ck.near(B, B.T, TOL, pkey(f"P:detailed-balance:{fam}"), c, "pi_i P_ij != pi_j P_ji", dict(edge=e))
         if p_reliable:
-            ck.near(Ps["d"], I, TOL, f"P:identity-at-zero:{fam}", c, "P(0) is not the identity")
-            ck.near(Ps["a"] @ Ps["b"], Ps["c"], TOL_BACKENDS, f"P:semigroup:{fam}", c, "P(s)P(t) != P(s+t)")
+            ck.near(Ps["d"], I, TOL, pkey(f"P:identity-at-zero:{fam}"), c, "P(0) is not the identity")
+            ck.near(Ps["a"] @ Ps["b"], Ps["c"], TOL_BACKENDS, pkey(f"P:semigroup:{fam}"), c, "P(s)P(t) != P(s+t)")
     # back-ends
     UNCHECKED = ("fast", "expdefn:eigen", "eigen")
     CHECKED = ("checked", "expdefn:checked", "expdefn:either", "either")
